@@ -22,6 +22,8 @@ def run_one(spec, tier, k):
     d = os.path.join(VERIF, "seeded", name)
     meta = json.load(open(os.path.join(d, "meta.json")))
     checks = checks.split(",") if checks else [meta["property"]]
+    if meta.get("superseded"):
+        return [(name, meta["property"], "SUPERSEDED", meta["superseded"][:200])]
     wt = f"/tmp/wt/run-{k}-{name}"
     sh(f"git -C /repo worktree remove --force {wt}")
     rc, out = sh(f"git -C /repo worktree add -q --detach {wt} HEAD")
